@@ -161,4 +161,7 @@ MUTANTS = [
             ("ractor/src/thread_local/inner.rs", "message_admission", "gate_word", "all")]},
  {"name": "silent-rename-worker-internals", "props": ["C13", "C14", "C15"], "expect": "silent",
   "edits": [("ractor/src/factory/worker.rs", "curr_jobs", "in_flight", "all")]},
+ {"name": "c09-await-before-checking-send", "props": ["C09"], "rules": ["C09.R8"],
+  "edits": [("ractor/src/rpc.rs", "        sent?;\n        Ok(if let Some(duration) = timeout_option {", "        let __r = if let Some(duration) = timeout_option {"),
+            ("ractor/src/rpc.rs", "                Err(_send_err) => CallResult::SenderError,\n            }\n        })\n    }\n}", "                Err(_send_err) => CallResult::SenderError,\n            }\n        };\n        sent?;\n        Ok(__r)\n    }\n}")]},
 ]
